@@ -96,6 +96,7 @@ def families(prop: str, tier: str, seed: int) -> List[Dict[str, Any]]:
         s += g.gen_pipe(seed + 7, 200 * k)       # hooks in front of the task function (sync / async / future-returning / raising)
     elif prop == "C02":
         s = list(g.gen_pipe_enum()) + g.gen_pipe(seed, 600 * k) + g.gen_deps(seed, 100 * k)
+        s += g.gen_stop_sweep(seed + 3, 300 * k)     # shutdown with work in flight, incl. synchronous functions still running in threads
     elif prop == "C03":
         s = g.gen_probe(seed, 500 * k) + g.gen_flow(seed, 300 * k) + g.gen_saturation(seed, 200 * k)
     elif prop == "C04":
@@ -117,6 +118,8 @@ def families(prop: str, tier: str, seed: int) -> List[Dict[str, Any]]:
     if prop in ("C01", "C02", "C03", "C04", "C06", "C07", "C12"):
         s += g.gen_api(seed, 150 * k)
     s += g.gen_cli(seed, 200 * k)
+    if prop in ("C02", "C05", "C07", "C01"):
+        s += g.gen_sync_drain(seed, 120 * k)
     if prop in ("C03", "C04"):
         from engine import flow
         s += [dict(x, noconf=True) for x in flow.gen_flow_large(seed, 150 * k)]   # conformance of these: TraceFlow (FlowAbs)
